@@ -89,6 +89,7 @@ type ReaderPlan struct {
 	DataErr     bool   `json:"data_err,omitempty"`      // reader: deliver the bytes before the fault together with the error
 	ErrKind     string `json:"err_kind,omitempty"`      // "" plain error | "wraps-eof" | "unexpected-eof"
 	FaultCall   int    `json:"fault_call,omitempty"`    // scanner: fail the n-th ReadRune call (1-based; persistent: from that call on, transient: that call only), whatever the offset — e.g. the re-read after an UnreadRune
+	EOFStale    bool   `json:"eof_stale,omitempty"`     // scanner: at end of input the rune RESULT is not zeroed: (last rune delivered, 0, io.EOF) — only the error says "nothing was read"
 	RuneWithErr bool   `json:"rune_with_err,omitempty"` // scanner: the failing ReadRune returns the rune at that position TOGETHER with the error (r, size>0, err)
 }
 
@@ -98,6 +99,7 @@ type SimReader struct {
 	Src  string
 	Plan ReaderPlan
 
+	lastRune          rune
 	pos               int // byte offset of the next rune
 	prev              int // byte offset before the last successful ReadRune; -1 if UnreadRune is not allowed
 	stack             []int
@@ -188,9 +190,13 @@ func (r *SimReader) ReadRune() (rune, int, error) {
 		r.prev = -1
 		r.EOFs++
 		r.S.noteIO(EvRead, "ReadRune!EOF", r.pos, 0)
+		if r.Plan.EOFStale {
+			return r.lastRune, 0, io.EOF
+		}
 		return 0, 0, io.EOF
 	}
 	c, size := utf8.DecodeRuneInString(r.Src[r.pos:])
+	r.lastRune = c
 	r.prev = r.pos
 	if r.Plan.Unread == "multi" {
 		r.stack = append(r.stack, r.pos)
